@@ -131,9 +131,12 @@ func runCase(t *rapid.T, c hx.Creds) error {
 	}
 	sm.Outcome = "session"
 	ev.Label("suite:" + c.Suite.String() + ":session")
-	if c.KG != nil {
+	switch {
+	case len(c.KG) > 0:
 		ev.Label("kg")
-	} else {
+	case c.KG != nil:
+		ev.Label("no-kg:empty-non-nil-slice")
+	default:
 		ev.Label("no-kg")
 	}
 	ev.Label(fmt.Sprintf("ulen:%d", len(c.User)))
@@ -213,6 +216,8 @@ func TestEnumerated(t *testing.T) {
 								for i := range c.KG {
 									c.KG[i] = byte(seed>>(uint(i)%48)) ^ 0x5a
 								}
+							} else if seed>>40&1 == 1 {
+								c.KG = []byte{} // absent, spelt as an empty slice
 							}
 							var err error
 							func() {
@@ -305,6 +310,6 @@ func TestCoverage(t *testing.T) {
 	for _, s := range hx.Suites9() {
 		need = append(need, "suite:"+s.String()+":session")
 	}
-	ev.RequireLabels(t, 1, need...)
+	ev.RequireLabels(t, 1, append(need, "kg", "no-kg", "no-kg:empty-non-nil-slice")...)
 	_ = ref.AuthSHA1
 }
